@@ -13,6 +13,7 @@ import ScyllaVerif.Props.C04
 import ScyllaVerif.Props.C05
 import ScyllaVerif.Props.C11
 import ScyllaVerif.Props.C15
+import Std.Data.String.ToNat
 
 namespace ScyllaVerif.Props.C12
 open ScyllaVerif.Ring ScyllaVerif.Replicas ScyllaVerif.Plan ScyllaVerif.Routing
@@ -1368,8 +1369,69 @@ theorem tablet_dc_replicas_in_dc (rc : RCluster) (kss : List (String × Bool × 
         rw [hdcok (dcName d)] at hpm
         exact (List.mem_filter.mp hpm).1
       refine List.mem_filterMap.mpr ⟨p, ?_, ?_⟩
-      · simp [replicasForToken, hl, hall]
+      · simp [Tablets.replicasForToken, hl, hall]
       · unfold resolve; rw [hfind]; rfl
+
+/-! "Complete replica list" said outright: the resolved replicas ARE the raw list the servers sent. -/
+
+/-- The host ids and shards of a replica list. -/
+def rawOf (l : List Rep) : List (Nat × Nat) := l.map (fun p => (p.1.hostId, p.2))
+
+private theorem resolveAll_complete (tr : Nat → Option Tablets.Node) (htr : ∀ id n, tr id = some n → n.hostId = id)
+    (raw : List (Nat × Nat)) (h : (resolveFailed tr raw).isEmpty = true) : rawOf (resolveAll tr raw) = raw := by
+  induction raw with
+  | nil => rfl
+  | cons r raw ih =>
+    obtain ⟨id, sh⟩ := r
+    simp only [resolveFailed, resolveAll, List.filterMap_cons] at h ⊢
+    cases hid : tr id with
+    | none => simp [hid] at h
+    | some n =>
+      simp only [hid, Option.map_some] at h ⊢
+      have := ih (by simpa [resolveFailed] using h)
+      simp only [rawOf, resolveAll, List.map_cons] at this ⊢
+      rw [this, htr id n hid]
+
+/-- **A tablet learnt or re-resolved with every replica known holds exactly the replicas the servers named**
+(`Tablet::from_raw_tablet`, `re_resolve_replicas`): same host ids, same shards, same order - nothing dropped, nothing
+invented. With `refresh_leaves_nothing_unresolved` (after a refresh `failed = none` everywhere) this is what "complete
+replica list" means: the policy is handed ALL replicas of the covering tablet. -/
+theorem resolved_is_raw (tr : Nat → Option Tablets.Node) (htr : ∀ id n, tr id = some n → n.hostId = id) :
+    (∀ first last raw, (Tablet.fromRaw first last raw tr).failed = none →
+      rawOf (Tablet.fromRaw first last raw tr).replicas.all = raw) ∧
+    (∀ t u raw, t.failed = some raw → reResolve tr t = some u → u.failed = none ∧ rawOf u.replicas.all = raw) := by
+  refine ⟨?_, ?_⟩
+  · intro first last raw h
+    simp only [Tablet.fromRaw, fromRawReplicas] at h ⊢
+    by_cases hc : (resolveFailed tr raw).isEmpty = true
+    · exact resolveAll_complete tr htr raw hc
+    · simp [hc] at h
+  · intro t u raw hf hr
+    unfold reResolve at hr
+    simp only [hf, fromRawReplicas] at hr
+    by_cases hc : (resolveFailed tr raw).isEmpty = true
+    · simp only [hc, if_true, Option.some.injEq] at hr
+      subst hr
+      exact ⟨rfl, resolveAll_complete tr htr raw hc⟩
+    · simp [hc] at hr
+
+/-- ... and an unresolved tablet holds exactly the KNOWN part of the raw list, in order (so a truncated list is never
+larger or differently sharded than what the servers named). -/
+theorem unresolved_is_known_part (tr : Nat → Option Tablets.Node) (htr : ∀ id n, tr id = some n → n.hostId = id)
+    (first last : Int) (raw : List (Nat × Nat)) :
+    rawOf (Tablet.fromRaw first last raw tr).replicas.all = raw.filter (fun r => (tr r.1).isSome) := by
+  simp only [Tablet.fromRaw, fromRawReplicas]
+  induction raw with
+  | nil => rfl
+  | cons r raw ih =>
+    obtain ⟨id, sh⟩ := r
+    simp only [resolveAll, List.filterMap_cons, List.filter_cons] at ih ⊢
+    cases hid : tr id with
+    | none => simpa [hid] using ih
+    | some n =>
+      simp only [Option.map_some, Option.isSome_some, if_true, rawOf, List.map_cons] at ih ⊢
+      rw [htr id n hid]
+      exact congrArg _ ih
 
 -- non-vacuity: the late-replica shape. Nodes 1 (dc0) and 2 (dc1) are known; a tablet names node 4 (unknown) and node 2;
 -- a refresh then adds node 4 at the end of the peer list (nobody removed or re-created): the tablet is complete again.
@@ -1392,8 +1454,10 @@ example : repsEx (stEx [.learn ("k0", "t0") 1 100 [(4, 4), (2, 3)]]) = [(2, 3)] 
 example : PeersMatch [n1, n2, n4] (stEx lateOps).known := by
   refine ⟨by decide, ?_⟩
   intro n hn
-  simp only [List.mem_cons, List.not_mem_nil, or_false] at hn
-  rcases hn with rfl | rfl | rfl <;> exact ⟨_, by decide, by decide⟩
+  have h : ∀ n ∈ [n1, n2, n4],
+      (alGet n.id (nodesOf (stEx lateOps).known)).map (·.dc) = some (n.dc.map dcName) := by decide
+  obtain ⟨kn, hk, hd⟩ := Option.map_eq_some_iff.mp (h n hn)
+  exact ⟨kn, hk, hd⟩
 
 end Refresh
 
@@ -1817,5 +1881,21 @@ theorem route_first_attempt_owns_token (rc : RCluster) (cfg : Config) (r : RRequ
     rcases hg with hg | ⟨d, hd, hg⟩
     · exact ⟨a, ha, own a _ hg.1, Or.inl hg.1⟩
     · exact ⟨a, ha, own a _ hg.1, Or.inr ⟨d, hd, hg.1⟩⟩
+
+-- non-vacuity of `route_first_attempt_owns_token`: in `exRC` node 3 has 4 shards (msb 0), the others none. A refiller of
+-- node 3 that saw two connections (shards 2 and 0 of 4) publishes a pool whose sharder is the node's; an untouched
+-- refiller (node 1) publishes nothing - `Node::sharder()` is `None`, as `exRC.sharder 1`.
+private def exPool3 : Refiller :=
+  ((Refiller.init (.perShard 1)).run [.ready ⟨0, some ⟨2, 4, 0⟩⟩ false, .ready ⟨1, some ⟨0, 4, 0⟩⟩ true]).getD
+    (Refiller.init (.perShard 1))
+example : nodeSharder exPool3.shared = exRC.sharder 3 ∧ nodeSharder (Refiller.init (.perShard 1)).shared = exRC.sharder 1 ∧
+    (exPool3.shared.map (fun p => match p with | .sharded _ b => b.map (·.map (·.id)) | .notSharded l => [l.map (·.id)])) =
+      some [[1], [], [0], []] ∧
+    -- token 160 is on shard 2 of node 3: the attempt travels on connection 0, which the server bound to shard 2
+    ((exPool3.shared.bind (fun p => connectionForShard p (computedShard (exRC.sharder 3) 160) ⟨7, fun k => (k, 1)⟩)).map
+      (fun c => (c.id, shardIdOf c))) = some (0, 2) ∧
+    Sharding.shardOfSpec 4 0 160 = 2 := by decide
+example : NrU16 ⟨0, some ⟨2, 4, 0⟩⟩ ∧ SharderM.Valid ⟨4, 0⟩ :=
+  ⟨(by intro i h; cases h; decide), (by unfold SharderM.Valid; decide)⟩
 
 end ScyllaVerif.Props.C12
